@@ -68,6 +68,8 @@ SessDef == [
    ibgpRR   |-> [ibgp |-> TRUE,  rsc |-> FALSE, rrc |-> TRUE,  n |-> 1, roles |-> FALSE, remote |-> "none"],
    ebgpAP   |-> [ibgp |-> FALSE, rsc |-> FALSE, rrc |-> FALSE, n |-> 2, roles |-> FALSE, remote |-> "none"],
    ibgpRRAP |-> [ibgp |-> TRUE,  rsc |-> FALSE, rrc |-> TRUE,  n |-> 3, roles |-> FALSE, remote |-> "none"],
+   ibgpAP   |-> [ibgp |-> TRUE,  rsc |-> FALSE, rrc |-> FALSE, n |-> 2, roles |-> FALSE, remote |-> "none"],   \* add-path, iBGP split horizon applies
+   toProviderAP |-> [ibgp |-> FALSE, rsc |-> FALSE, rrc |-> FALSE, n |-> 2, roles |-> TRUE, remote |-> "provider"],  \* add-path, OTC routes stay behind
    toCustomer |-> [ibgp |-> FALSE, rsc |-> FALSE, rrc |-> FALSE, n |-> 1, roles |-> TRUE, remote |-> "customer"],
    toPeer     |-> [ibgp |-> FALSE, rsc |-> FALSE, rrc |-> FALSE, n |-> 1, roles |-> TRUE, remote |-> "peer"],
    toProvider |-> [ibgp |-> FALSE, rsc |-> FALSE, rrc |-> FALSE, n |-> 1, roles |-> TRUE, remote |-> "provider"],
